@@ -126,7 +126,105 @@ class CondKind:
         return f'{"not " if self.negated else ""}{self.kind}({self.subject})'
 
 
+def single_defs(f: FuncInfo) -> Dict[str, ast.expr]:
+    """Locals of f that are assigned exactly once (plain or annotated assignment to a bare name) and are not parameters."""
+    cached = f.__dict__.get('_single_defs')
+    if cached is not None:
+        return cached
+    counts: Dict[str, int] = {}
+    vals: Dict[str, ast.expr] = {}
+    params = {p.arg for p in f.params}
+    for x in walk_own(f.node):
+        if isinstance(x, ast.Name) and isinstance(x.ctx, (ast.Store, ast.Del)):
+            counts[x.id] = counts.get(x.id, 0) + 1
+        if isinstance(x, ast.Assign) and len(x.targets) == 1 and isinstance(x.targets[0], ast.Name):
+            vals[x.targets[0].id] = x.value
+        elif isinstance(x, ast.AnnAssign) and isinstance(x.target, ast.Name) and x.value is not None:
+            vals[x.target.id] = x.value
+    out = {k: v for k, v in vals.items() if counts.get(k, 0) == 1 and k not in params}
+    f.__dict__['_single_defs'] = out
+    return out
+
+
+def canon_expr(f: Optional[FuncInfo], e: ast.AST, _depth: int = 0) -> ast.AST:
+    """`e` with a leading local that is a pure alias (`ctx_name = self.context`, assigned once) replaced by what it stands for."""
+    if f is None or _depth > 4:
+        return e
+    parts: List[str] = []
+    root = e
+    while isinstance(root, ast.Attribute):
+        parts.append(root.attr)
+        root = root.value
+    if isinstance(root, ast.Name) and isinstance(getattr(root, 'ctx', ast.Load()), ast.Load):
+        v = single_defs(f).get(root.id)
+        if v is not None and _pure_path(v) and norm(v) != root.id:
+            base = canon_expr(f, v, _depth + 1)
+            out: ast.AST = base
+            for a in reversed(parts):
+                out = ast.Attribute(value=out, attr=a, ctx=ast.Load())
+            return ast.copy_location(out, e) if hasattr(e, 'lineno') else out
+    return e
+
+
+def _pure_path(v: ast.AST) -> bool:
+    """Name / attribute / constant-or-name subscript chain: evaluating it again gives the same object (no calls)."""
+    if isinstance(v, ast.Name):
+        return True
+    if isinstance(v, ast.Attribute):
+        return _pure_path(v.value)
+    if isinstance(v, ast.Subscript):
+        sl = v.slice
+        ok_sl = isinstance(sl, (ast.Constant, ast.Name)) or (isinstance(sl, ast.Tuple) and all(isinstance(x, (ast.Constant, ast.Name)) for x in sl.elts))
+        return ok_sl and _pure_path(v.value)
+    return False
+
+
+def canon_text(f: Optional[FuncInfo], e: ast.AST) -> str:
+    return norm(canon_expr(f, e))
+
+
+def canon_dotted(f: Optional[FuncInfo], e: ast.AST) -> Optional[str]:
+    return dotted(canon_expr(f, e))
+
+
+def _flag_expr(f: FuncInfo, e: ast.expr) -> Optional[ast.expr]:
+    """A local boolean flag (`has_ctx = ctx_name is not None`, assigned once) stands for its defining condition."""
+    if isinstance(e, ast.Name):
+        v = single_defs(f).get(e.id)
+        if isinstance(v, (ast.Compare, ast.BoolOp)) or (isinstance(v, ast.UnaryOp) and isinstance(v.op, ast.Not)) or \
+                (isinstance(v, ast.Call) and dotted(v.func) in ('isinstance', 'hasattr', 'callable', 'bool')):
+            return v
+    return None
+
+
 def classify_cond(prog: Program, f: FuncInfo, e: ast.expr) -> CondKind:
+    from .absint import Interp  # local import to avoid cycle
+    fl_ = _flag_expr(f, e) if f is not None else None
+    if fl_ is not None:
+        if isinstance(fl_, ast.Call) and dotted(fl_.func) == 'bool' and len(fl_.args) == 1:
+            return classify_cond(prog, f, fl_.args[0])
+        if not isinstance(fl_, ast.BoolOp):
+            return classify_cond(prog, f, fl_)
+    return _canon_kind(f, _classify_cond(prog, f, e))
+
+
+def _canon_kind(f: FuncInfo, k: 'CondKind') -> 'CondKind':
+    if f is None or not k.subject:
+        return k
+    root = k.subject.split('.')[0]
+    v = single_defs(f).get(root)
+    if v is not None and dotted(v) is not None and dotted(v) != root:
+        try:
+            tree = ast.parse(k.subject, mode='eval').body
+        except SyntaxError:
+            return k
+        c = canon_dotted(f, tree)
+        if c:
+            return CondKind(k.kind, c, k.negated, k.detail)
+    return k
+
+
+def _classify_cond(prog: Program, f: FuncInfo, e: ast.expr) -> CondKind:
     from .absint import Interp  # local import to avoid cycle
     if isinstance(e, ast.UnaryOp) and isinstance(e.op, ast.Not):
         inner = classify_cond(prog, f, e.operand)
@@ -135,10 +233,11 @@ def classify_cond(prog: Program, f: FuncInfo, e: ast.expr) -> CondKind:
         op, l, r = e.ops[0], e.left, e.comparators[0]
         if isinstance(op, (ast.Is, ast.IsNot)):
             for a, b in ((l, r), (r, l)):
+                subj = a.target.id if isinstance(a, ast.NamedExpr) else dotted(a)     # `(x := f()) is None` tests x
                 if isinstance(b, ast.Constant) and b.value is None:
-                    return CondKind('is-none', dotted(a), isinstance(op, ast.IsNot))
+                    return CondKind('is-none', subj, isinstance(op, ast.IsNot))
                 if is_unset_expr(prog, f, b):
-                    return CondKind('is-unset', dotted(a), isinstance(op, ast.IsNot))
+                    return CondKind('is-unset', subj, isinstance(op, ast.IsNot))
         if isinstance(l, ast.Call) and dotted(l.func) == 'len' and l.args:
             return CondKind('len-cmp', dotted(l.args[0]), False, norm(e))
         if isinstance(op, (ast.Eq, ast.NotEq)):
@@ -200,11 +299,12 @@ def const_value(prog: Program, f: FuncInfo, e: ast.AST, recv: Optional[ClassInfo
 
 
 class KeyWrite:
-    def __init__(self, key: str, node: Node, value: Optional[ast.expr], var: Optional[str]):
+    def __init__(self, key: str, node: Node, value: Optional[ast.expr], var: Optional[str], extra=None):
         self.key = key
         self.node = node
         self.value = value
         self.var = var
+        self.extra = list(extra or [])     # expression-level conditions of the write: [(cond, polarity)] (`**({k: v} if c else {})`)
 
     def __repr__(self) -> str:
         return f'<write {self.key!r} @{self.node.line}>'
@@ -238,6 +338,17 @@ def key_writes(cfg: CFG) -> List[KeyWrite]:
             for k, v in zip(val.keys, val.values):
                 if isinstance(k, ast.Constant) and isinstance(k.value, str):
                     out.append(KeyWrite(k.value, n, v, tgt_var))
+                elif k is None:
+                    # `**{...}` / `**({...} if cond else {})` merged into the literal
+                    def merged(e: ast.expr, extra) -> None:
+                        if isinstance(e, ast.Dict):
+                            for k2, v2 in zip(e.keys, e.values):
+                                if isinstance(k2, ast.Constant) and isinstance(k2.value, str):
+                                    out.append(KeyWrite(k2.value, n, v2, tgt_var, extra))
+                        elif isinstance(e, ast.IfExp):
+                            merged(e.body, extra + [(e.test, True)])
+                            merged(e.orelse, extra + [(e.test, False)])
+                    merged(v, [])
         elif isinstance(val, ast.Call) and isinstance(val.func, ast.Name) and val.func.id == 'dict' and not val.args:
             for kw in val.keywords:
                 if kw.arg:
